@@ -151,6 +151,9 @@ def specs(tier):
     for kind in ("refs", "inline", "array"):
         for L in ((3, 6) if tier == "quick" else (3, 6, 10, 14)):
             out.append((MOD, "mk_depth", (kind, L)))
+    # the registry is keyed by class names that are sanitised again on every look-up: the sanitiser must be a fixed point
+    for n in (range(0, 4) if tier == "quick" else range(0, 6)):
+        out.append(("props.c04", "mk_idem", (n, "sanitize_class_name")))
     return out
 
 
@@ -175,6 +178,10 @@ def replay(path):
     parts = v["obligation"].split("/")
     if parts[0] == "depth_cut":
         ob = DepthCut(parts[1], int(parts[2].split("=")[1]))
+    elif parts[0] == "lemma":
+        from props import c04
+
+        return c04.replay(path)
     else:
         ob = RestState(parts[1], [1] * c02.TEMPLATES[parts[1]][0])
     r = ob.run_real(v["inputs"])
